@@ -7,7 +7,7 @@ import json, os, shutil, subprocess, sys, time
 src, name = sys.argv[1], sys.argv[2]
 VERIF = os.path.dirname(os.path.dirname(os.path.abspath(__file__)))
 wt = "/var/tmp/sv_%s" % name
-tgt = "/var/tmp/seed-target"
+tgt = os.environ.get("SEED_TARGET", "/var/tmp/seed-target")
 env = dict(os.environ, CARGO_TARGET_DIR=tgt, CARGO_NET_OFFLINE="true")
 
 def sh(cmd, cwd=None, env=env, timeout=1200):
